@@ -44,11 +44,24 @@ def check_nonint(rep, run: Run):
         rep.discharged("MT-NONINT", fi, dvs[0][0]["node"],
                        "the distance component of every return is the same expression, free of the flag: requesting "
                        "the matching cannot change the distance", derived=sym.show(base)[:200])
-    else:
-        ev = dvs[-1][0]
+        return
+    ev = dvs[-1][0]
+    other = [e for _, e in dvs if e != base][0]
+    solver_out = lambda x: any(y[0] == "opq" and y[1] in ("hk_partner", "lsa_rows", "lsa_cols", "hk_len") for y in sym.walk(x))
+    if solver_out(base) != solver_out(other) or unmodelled_in(other) or unmodelled_in(base):
+        rep.unmodelled("MT-NONINT", fi, ev["node"],
+                       "the distance returned with the matching is derived differently (through the solver's output) from the "
+                       "one returned without; whether the two agree depends on solver optimality, which is not decided here")
+        return
+    ok, w = symeval.equivalent(base, other, trials=40)
+    if ok is True:
+        rep.discharged("MT-NONINT", fi, ev["node"], "the two returned distances are the same function (identity-tested)")
+    elif ok is False:
         rep.refuted("MT-NONINT", fi, ev["node"],
-                    "the distance returned with matching=True is computed differently from the one returned without: "
-                    f"{sym.show(dvs[0][1])[:120]} vs {sym.show(dvs[-1][1])[:120]}")
+                    "the distance returned with matching=True differs from the one returned without: "
+                    f"{sym.show(base)[:100]} vs {sym.show(other)[:100]}; witness {str(w)[:200]}")
+    else:
+        rep.unmodelled("MT-NONINT", fi, ev["node"], f"cannot compare the two returned distances ({w})")
 
 
 def _matching_value(run: Run):
